@@ -29,12 +29,13 @@ Definition mismatch_src (c : src_case) : bool :=
         && trace_match false (snd m) (snd (sc_obs c))).
 (** the property relations of C07 (failures are reported) and C15 (the answer is the one a fresh
     controller gives on the present state: here, the model's) on the implementation's observation *)
-(** C07 at the level of the sources: whatever LIST request failed while the request was handled, the
-    failure is reported (never a silently shortened list) *)
-Definition list_failure_reported (c : src_case) : bool :=
-  existsb (fun w => has_prefix "failed to list pods" w) (rs_warnings (fst (sc_obs c))).
+(** C07 at the level of the sources: whatever happens between the lister and the API server (chunking,
+    retries, a failing page), the answer is either the list-failure warning or the honest report over
+    ALL the pods the server holds (P11 / P12 against the complete live list) - never a silently shortened list.
+    (The informer's list order is not defined, so this is evaluated for the live lister only.) *)
 Definition pf_src07 (c : src_case) : bool :=
-  pf07 (sc_adm c) || (sc_list_failed c && negb (list_failure_reported c)).
+  pf07 (sc_adm c)
+  || (negb (wi_pods_informer (sc_wiring c)) && negb (f_list (sc_faults c)) && (pf11 (sc_adm c) || pf12 (sc_adm c))).
 Definition resp_same_src (a b : response) : bool :=
   resp_eqb a b && list_eqb String.eqb (map fst (rs_causes a)) (map fst (rs_causes b)) && shared_eqb (rs_shared a) (rs_shared b).
 Definition pf_src15 (c : src_case) : bool := negb (resp_same_src (fst (sc_obs c)) (sc_fresh c)).
